@@ -96,13 +96,21 @@ fn safe_join(root: &Path, rel: &str) -> Result<PathBuf, String> {
 
 struct CaseDir(PathBuf);
 
+fn decoy_dir(root: &Path) -> PathBuf {
+    let mut name = root.file_name().map(|n| n.to_os_string()).unwrap_or_default();
+    name.push("-cwd");
+    root.with_file_name(name)
+}
+
 impl Drop for CaseDir {
     fn drop(&mut self) {
+        let _ = std::env::set_current_dir(TMP_ROOT);
         let _ = std::fs::remove_dir_all(&self.0);
+        let _ = std::fs::remove_dir_all(decoy_dir(&self.0));
     }
 }
 
-fn setup(files: &[Sx], main_rel: &str) -> Result<(CaseDir, PathBuf), String> {
+fn setup(files: &[Sx], main_rel: &str, decoys: &[Sx]) -> Result<(CaseDir, PathBuf), String> {
     let n = COUNTER.fetch_add(1, Ordering::SeqCst);
     let root = Path::new(TMP_ROOT).join(format!("incl-{}-{}", std::process::id(), n));
     let _ = std::fs::remove_dir_all(&root);
@@ -128,6 +136,26 @@ fn setup(files: &[Sx], main_rel: &str) -> Result<(CaseDir, PathBuf), String> {
         std::fs::write(&path, &bytes).map_err(|e| format!("write {rel}: {e}"))?;
     }
     let main = safe_join(&dir.0, main_rel)?;
+    // The process works in a directory of decoys (paths chosen by the driver: the names of directives that resolve next to their
+    // including file, never a name that is missing there): such a name also exists relative to the working directory then, and
+    // must still be taken from next to the including file.
+    let cwd = decoy_dir(&dir.0);
+    let _ = std::fs::remove_dir_all(&cwd);
+    std::fs::create_dir_all(&cwd).map_err(|e| format!("create {}: {e}", cwd.display()))?;
+    for d in decoys {
+        if let Sx::S(p) = d {
+            let rel = String::from_utf8_lossy(p).into_owned();
+            if let Ok(path) = safe_join(&cwd, &rel) {
+                if let Some(parent) = path.parent() {
+                    let _ = std::fs::create_dir_all(parent);
+                }
+                if !path.is_dir() {
+                    let _ = std::fs::write(&path, format!("/* decoy of {rel} */\n"));
+                }
+            }
+        }
+    }
+    std::env::set_current_dir(&cwd).map_err(|e| format!("chdir: {e}"))?;
     Ok((dir, main))
 }
 
@@ -259,7 +287,12 @@ fn run_inner(case: &Sx) -> Sx {
         ),
         _ => return harness_err("case: ( files main strict flat ) expected"),
     };
-    let (_dir, main) = match setup(files, &main_rel) {
+    let no_decoys: Vec<Sx> = Vec::new();
+    let decoys: &[Sx] = match c.get(5) {
+        Some(Sx::L(d)) => d,
+        _ => &no_decoys,
+    };
+    let (_dir, main) = match setup(files, &main_rel, decoys) {
         Ok(v) => v,
         Err(msg) => return harness_err(&msg),
     };
@@ -336,7 +369,7 @@ pub fn run_loadinc(case: &Sx) -> Sx {
         all_text.push_str(&String::from_utf8_lossy(l[1].as_bytes()));
         all_text.push('\n');
     }
-    let (dir, main) = match setup(files, &main_rel) {
+    let (dir, main) = match setup(files, &main_rel, &[]) {
         Ok(v) => v,
         Err(msg) => return harness_err(&msg),
     };
